@@ -47,7 +47,7 @@ def run_shard(desc):
     for k, b in gen.ORDER_FNS.items():
         base_ctx[k] = ("fn", ref.Beh(b["id"], b["log"], b["ret"], ref.value_from_json(b["v"]) if "v" in b else None))
     progs = []
-    rend = ref.Renderer(table=model["table"])
+    rend = ref.Renderer(table=model["table"], rnd=rnd)
     if kind == "long":
         for _ in range(n):
             g.i = 0
